@@ -119,7 +119,7 @@ def run(tier, seed, replay=None):
     rng = lib.rng_for(seed, PID)
     syms = template_symbols()
     rep.extra['template_symbols'] = syms
-    rounds = 3 if tier == 'quick' else 60
+    rounds = 3 if tier == 'quick' else 240
     cases = []
     pairs = []
 
